@@ -8,3 +8,5 @@ import Refine.Model.Geom
 import Refine.Model.Matrix
 import Refine.Lemmas.ScalarReal
 import Refine.Props.C15
+import Refine.Lemmas.MatrixReal
+import Refine.Props.C16
